@@ -638,8 +638,11 @@ class Parser:
                     quoted = True
                 else:
                     expr = expr[1:]  # remove only $
-                if expr.startswith("(") and expr.endswith(
-                    ")"
+                # A single reference spans the whole content only if no further reference starts inside it:
+                # "$(A)-$(B)" / "${A}-${B}" also start and end with the brackets but are strings with embedded references.
+                single_ref = "$" not in expr
+                if (
+                    single_ref and expr.startswith("(") and expr.endswith(")")
                 ):  # first try to expand as a macro, then as an environment variable, then cause error
                     expr = expr[1:-1]
                     if self.kconfig.variables.get(expr):
@@ -653,7 +656,7 @@ class Parser:
                         return self.kconfig._lookup_const_sym("")
                     else:
                         raise KconfigError(f"{expr}: macro expanded to blank string")
-                elif expr.startswith("{") and expr.endswith("}"):
+                elif single_ref and expr.startswith("{") and expr.endswith("}"):
                     # Pure ${NAME} reference spanning the entire content
                     expr = expr[1:-1]
                     return self.create_envvar(expr)
